@@ -494,6 +494,7 @@ def prop_C17(run):
     import rules_mpt as _rm
     _rm.alignment_rules(run)                   # labels of a block obey the address-unit rule like labels written in place
     rules_asm.fn_rules(run)
+    rules_asm.fn_params_rule(run)               # #fn parameters are distinct and comma-separated (F82)
     rules_asm.args_rules(run)
     rules_idx.static_known(run)
     rules_idx.sk_provider(run)
